@@ -640,6 +640,12 @@ func refcountCase(c *mon.Case, prop string, idx int) {
 				runtime.Gosched()
 			}
 			ctxMu.Lock()
+			if len(cx.all) >= 2 && x.IntN(5) == 0 {
+				// a context the container was given earlier and that has since been replaced is cancelled by its owner: no business of the container's
+				c.Rec("ctx", "cancel a context that was replaced earlier", nil)
+				c.Count("replaced_context_cancelled", 1)
+				cx.all[x.IntN(len(cx.all)-1)]()
+			}
 			ctxOp := x.IntN(6)
 			// SetContext with the context the container already has is documented to do nothing: it is no excuse for anything
 			sameCtxOp := ctxOp == 4 && cx.cur != nil && containerCtx == cx.cur
